@@ -277,6 +277,12 @@ func (e *Env) ident(name string) Term {
 	}
 	if e.fr != nil && !e.calleeMode {
 		fr := e.fr
+		// ghost loop accumulators (their value at the loop head; after the loop: the final value)
+		for _, li := range fr.loopCtx {
+			if t, ok := li.ghosts[name]; ok {
+				return t
+			}
+		}
 		// loop-carried variables by phi comment
 		if e.phiEdge != nil || e.loopHdr != nil {
 			blk := e.loopHdr
@@ -315,6 +321,29 @@ func (e *Env) ident(name string) Term {
 			}
 			if best != nil {
 				return fr.val(best)
+			}
+		}
+		if e.at != nil && e.phiEdge == nil && e.loopHdr == nil {
+			// a merge phi of that variable dominating the evaluation point (innermost)
+			var best *ssa.Phi
+			for _, b := range fr.fn.Blocks {
+				if !(b == e.at || b.Dominates(e.at)) {
+					continue
+				}
+				for _, in := range b.Instrs {
+					p, ok := in.(*ssa.Phi)
+					if !ok {
+						break
+					}
+					if p.Comment == name && (best == nil || best.Block().Dominates(b)) {
+						best = p
+					}
+				}
+			}
+			if best != nil {
+				if _, defined := fr.vals[best]; defined {
+					return fr.val(best)
+				}
 			}
 		}
 		for i, p := range fr.fn.Params {
